@@ -860,6 +860,10 @@ class Block(object):
         if net.op == 'm' and net.dests[0].bitwidth != net.op_param[1].bitwidth:
             raise PyrtlInternalError('error, mem read dest bitwidth mismatch')
 
+        # consistency between the two mem op_params
+        if net.op in 'm@' and net.op_param[0] != net.op_param[1].id:
+            raise PyrtlInternalError('error, mem op memid does not match the id of its memory')
+
 
 class PostSynthBlock(Block):
     """ This is a block with extra metadata required to maintain the
